@@ -202,8 +202,12 @@ def Forest.chain (f : Forest) : Nat → Nat → List Nat
     | none => [n]
     | some p => n :: f.chain fuel p
 
-/-- `graph_root` -/
-def Forest.root (f : Forest) (fuel : Nat) (n : Nat) : Nat := (f.chain fuel n).getLast?.getD n
+/-- `graph_root`: walk up while there is a parent -/
+def Forest.root (f : Forest) : Nat → Nat → Nat
+  | 0, n => n
+  | fuel + 1, n => match f.parent n with
+    | none => n
+    | some p => f.root fuel p
 
 /-- the nodes that end up failed when the leaves `ks` raise -/
 def Forest.failedNodes (f : Forest) (fuel : Nat) (ks : List Nat) (n : Nat) : Bool :=
